@@ -350,9 +350,9 @@ MemRemoveAll(st, c) ==
     IF IsEmptyPath(c.p) \/ EndsWithDot(c.p) \/ r.err # "ok" \/ r.id = 0 \/ LastKind(c.p) # "norm" THEN {}    \* as the reference
     ELSE LET par == Last(r.par)
              inner == IF IsDir(st, r.id) /\ DOMAIN st.ino[r.id].ent # {} THEN MemRmDir(st, r.id, 6) ELSE {[err |-> "ok", st |-> st]} IN
-         {IF i.err # "ok" THEN Fail(i.err, Gc(i.st))
-          ELSE IF ~May(i.st, par, 2) THEN Fail("EACCES", Gc(i.st))
-          ELSE Ok(Gc(DelEntry(i.st, par, r.name))) : i \in inner}
+         \* the write bit of the parent directory is asked for first: without it nothing is removed
+         IF ~May(st, par, 2) THEN {Fail("EACCES", st)}
+         ELSE {IF i.err # "ok" THEN Fail(i.err, Gc(i.st)) ELSE Ok(Gc(DelEntry(i.st, par, r.name))) : i \in inner}
 \* new directories keep the set-uid / set-gid bits asked for (mkdir(2) keeps the permission and sticky bits only)
 KeepSpecial(pre, post, c) ==
     [post EXCEPT !.ino = [i \in DOMAIN post.ino |->
